@@ -13,29 +13,21 @@ Proof.
   rewrite (mismatch_rejected_l k w E) in H. congruence.
 Qed.
 
-(* the only silent change of value: a float with a fraction written for an integer-kind field *)
-Definition truncating (k : lkind) (w : wv) : bool :=
-  match k, w with
-  | (KInt | KUint | KDuration), WFloat _ true => true
-  | _, _ => false
-  end.
-
-Lemma no_silent_coercion_partial_l k w r :
-  truncating k w = false -> decode_leaf k w = r -> r <> DErr -> r <> DKeep -> same_value w r.
+(* an accepted value is the written value — for every kind and every written value (since fix
+   91bc960c3 a float with a fraction is rejected for integer kinds instead of being truncated) *)
+Lemma no_silent_coercion_l k w r :
+  decode_leaf k w = r -> r <> DErr -> r <> DKeep -> same_value w r.
 Proof.
-  intros Ht H Hr Hk. subst r.
+  intros H Hr Hk. subst r.
   destruct k, w; cbn in *; try congruence; try (exfalso; apply Hr; reflexivity); try auto;
-    try (destruct frac; try discriminate);
+    try (destruct frac; cbn in *; try (exfalso; apply Hr; reflexivity));
     try (destruct (z <? 0)%Z; cbn in *; [exfalso; apply Hr; reflexivity|auto]);
     try (destruct (whole <? 0)%Z; cbn in *; [exfalso; apply Hr; reflexivity|auto]); auto.
 Qed.
 
-Lemma no_silent_coercion_refuted_l :
-  exists k w r, decode_leaf k w = r /\ r <> DErr /\ r <> DKeep /\ ~ same_value w r.
-Proof.
-  exists KInt, (WFloat 1 true), (DNum 1 false). cbn. repeat split; try discriminate.
-  intros [_ H]. discriminate.
-Qed.
+Lemma fraction_rejected_l z : decode_leaf KInt (WFloat z true) = DErr /\ decode_leaf KUint (WFloat z true) = DErr /\
+                              decode_leaf KDuration (WFloat z true) = DErr.
+Proof. repeat split. Qed.
 
 Lemma null_keeps_l k : decode_leaf k WNull = DKeep.
 Proof. destruct k; reflexivity. Qed.
